@@ -95,6 +95,26 @@ def facts(read, die, define):
     else:
         die("C09: unrecognised id format %r in Tree_get_node_argument" % mm.group(1))
     out.append("Definition C09_tree_id_parse_checked : bool := %s." % b(parse_checked))
+    # column parsing order / check flags of every parse_<table>_table_dict
+    for tname, fn in (("individuals", "parse_individual_table_dict"), ("nodes", "parse_node_table_dict"),
+                      ("edges", "parse_edge_table_dict"), ("migrations", "parse_migration_table_dict"),
+                      ("sites", "parse_site_table_dict"), ("mutations", "parse_mutation_table_dict"),
+                      ("populations", "parse_population_table_dict"), ("provenances", "parse_provenance_table_dict")):
+        body = _func_body(lw, fn, die)
+        calls = re.findall(r"table_read_(column|offset)_array\(\s*(\w+)_input,\s*(?:NPY_\w+,\s*)?&(\w+),\s*"
+                           r"(?:\w+,\s*)?(true|false)\s*\)", body)
+        n_all = len(re.findall(r"table_read_(?:column|offset)_array\(", body))
+        if not calls or len(calls) != n_all:
+            die("C09: unrecognised table_read_*_array call in %s (%d of %d parsed)" % (fn, len(calls), n_all))
+        spec = [(name, kind == "offset", flag == "true") for kind, name, var, flag in calls if var == "num_rows"]
+        if not spec:
+            die("C09: no num_rows column in %s" % fn)
+        out.append("Definition C09_columns_%s : list (string * (bool * bool)) := [%s]." % (
+            tname, "; ".join('("%s"%%string, (%s, %s))' % (nm, b(io), b(ck)) for nm, io, ck in spec)))
+    # N10: does genetic_relatedness_weighted validate its index tuples?
+    gw = _func_body(read("c/tskit/trees.c"), "tsk_treeseq_genetic_relatedness_weighted", die)
+    out.append("Definition C09_relatedness_weighted_checks_indexes : bool := %s."
+               % b(bool(re.search(r"check_set_indexes\s*\(", gw))))
     m = re.search(r"^#define\s+HARTIGAN_MAX_ALLELES\s+(\d+)", read("c/tskit/trees.c"), re.M)
     if not m:
         die("C09: HARTIGAN_MAX_ALLELES")
